@@ -95,6 +95,19 @@ func groupBody(name, trait, op string, st group.ExecutionStrategy, members []str
 		if (err != nil) != wantErr {
 			verifrt.Logf("FAIL group-outcome %s ## returned error %v, the strategy's contract gives error=%v", name, err, wantErr)
 		}
+		if st == group.ExecutionStrategyOne {
+			// "One tries members in order until one succeeds": in the order they were given to the group
+			var want []string
+			for _, m := range members {
+				want = append(want, m)
+				if !strings.HasPrefix(m, "fail") {
+					break
+				}
+			}
+			if fmt.Sprint(f.called) != fmt.Sprint(want) {
+				verifrt.Logf("FAIL group-one-order %s ## members were called in the order %v, the group was given %v: %v expected", name, f.called, members, want)
+			}
+		}
 		for _, m := range f.called {
 			if strings.HasPrefix(m, "wait") {
 				seen := false
@@ -133,6 +146,10 @@ func groupCases() []groupCase {
 		{group.ExecutionStrategyRace, []string{"wait0", "fail1"}, true},
 		{group.ExecutionStrategyOne, []string{"fail0", "ok1", "wait2"}, false},
 		{group.ExecutionStrategyAll, []string{"ok0", "ok1"}, false},
+		// member names in no particular order, and one name twice (a member listed twice is asked twice)
+		{group.ExecutionStrategyOne, []string{"ok9", "fail1", "ok0"}, false},
+		{group.ExecutionStrategyOne, []string{"fail7", "ok3", "fail1"}, false},
+		{group.ExecutionStrategyMost, []string{"fail0", "fail0", "ok1"}, true},
 		// failures the strategy tolerates: the call succeeds, and what the failed members did not deliver is simply
 		// not part of the group's answer
 		{group.ExecutionStrategyMost, []string{"fail0", "ok1", "ok2"}, false},
